@@ -13,9 +13,9 @@ ops
   rtx s=<k> seq=<rtp seq> pos=outer|inner bn= be=   the packet first written on stream k with that RTP sequence
                                                    number (and header SSRC = k: the NACK responder's rule) is sent
                                                    again by a party that kept a copy — outer: from above the
-                                                   interceptor (the copy of what the application wrote goes through
-                                                   Write once more and gets a fresh number; the interceptor edits
-                                                   that copy in place); inner: from below it (what reached the bottom
+                                                   interceptor (a fresh copy of what the application wrote goes
+                                                   through Write once more and gets a fresh number; the kept
+                                                   copy itself is never edited); inner: from below it (what reached the bottom
                                                    writer goes out again, byte for byte).  Valid for senders whose
                                                    sequence numbers stay inside the responder's window and do not
                                                    repeat (the ring itself is C04's subject).  Only the `w` line.
@@ -207,13 +207,10 @@ def step (s : St) (ts : List String) : St × List String :=
         | some (h, pl, line) =>
           if pos == "inner" then (s, line.toList)
           else
-            -- the kept copy goes through Write again; the interceptor sets the element on THAT header object
+            -- a COPY of the kept header goes through Write again (the responder clones it for every
+            -- retransmission since the F-41 repair), so the kept copy stays what the application wrote
             let (c', o) := write s.c id (some h) pl b
-            let h' := match o.forwarded with
-              | some (some h', _) => h'
-              | _ => h
-            ({ s with c := c', sent := ((k, q), (h', pl, line)) :: s.sent.filter (·.1 != (k, q)) },
-             (showOut o).filter (·.startsWith "w "))
+            ({ s with c := c' }, (showOut o).filter (·.startsWith "w "))
     | _, _, _, _ => (s, ["bad-op"])
   | "writenil" :: rest =>
     let fs := fields rest
